@@ -20,7 +20,7 @@ from vf.checks import c14
 SHARDS = {'quick': 16, 'thorough': 64}
 TIMEOUT = {'quick': 1500, 'thorough': 7200}
 MUST_HIT = ['EarlierObject.rechecked', 'Xsd.types-in-nested-package', 'Xsd.attribute-of-unsupported-data-type', 'Xsd.well-formed', 'Xsd.types', 'Xsd.classes', 'Xsd.after-edit', 'Xsd.cli-file',
-            'Xsd.enumerator-order', 'Xsd.real-model-edit', 'Xsd.xml-special-names', 'Xsd.class-owned-directly-by-a-component', 'Xsd.type-owned-directly-by-a-component']
+            'Xsd.enumerator-order', 'Xsd.real-model-edit', 'Xsd.xml-special-names', 'Xsd.class-owned-directly-by-a-component', 'Xsd.type-owned-directly-by-a-component', 'Xsd.class-without-declared-attributes']
 MUST_REACH = ['bridgepoint/gen_xsd_schema.py:build_schema', 'bridgepoint/gen_xsd_schema.py:build_component',
               'bridgepoint/gen_xsd_schema.py:build_class', 'bridgepoint/gen_xsd_schema.py:build_enum_type',
               'bridgepoint/gen_xsd_schema.py:build_user_type', 'bridgepoint/gen_xsd_schema.py:build_core_type',
@@ -131,7 +131,7 @@ def edit(rng, d):
     if k == 'add-attr':
         c = rng.choice(d.classes)
         ty = rng.choice(c14.TYPES + ['Color', 'Deep_t', 'void', 'Local_Enum', 'Local_Enum', 'Second_Enum'] + unsupported_types(d, c))
-        c.attrs.insert(rng.randint(1, len(c.attrs)), bp.Attr(unique_name(d, 'added', rng), ty))
+        c.attrs.insert(rng.randint(min(1, len(c.attrs)), len(c.attrs)), bp.Attr(unique_name(d, 'added', rng), ty))
         return ('add-attr', c.kl, ty)
     if k == 'add-enum':
         n, vals, w = d.enums[0]
@@ -212,6 +212,19 @@ def one_diagram(ctx, rng, tmpdir):
         if rng.random() < 0.3:
             ctx.hit('Xsd.attribute-of-unsupported-data-type')
             c.attrs.append(bp.Attr(unique_name(d, 'odd', rng), rng.choice(unsupported_types(d, c))))
+    if rng.random() < 0.4:
+        # classes for which no attribute is declared at all: without attributes, or with attributes of unsupported
+        # types only - each is still one element of the component
+        where = rng.choice(('comp', 'pkg', 'deep', 'direct'))
+        if rng.random() < 0.5:
+            d.classes.append(bp.Cls('Bare', 'KB', 97, [], [], where=where))
+        else:
+            c = bp.Cls('Odd only', 'KO', 96, [], [], where=where)
+            c.attrs.append(bp.Attr('o1', rng.choice(unsupported_types(d, c))))
+            if rng.random() < 0.5:
+                c.attrs.append(bp.Attr('o2', 'integer', derived='self.o2 = 1;'))
+            d.classes.append(c)
+        ctx.hit('Xsd.class-without-declared-attributes')
     if rng.random() < 0.7:
         special_names(rng, d)
         ctx.hit('Xsd.xml-special-names')
